@@ -4,7 +4,8 @@
    primitive float type and operations the model mentions). *)
 From Coq Require Import List Arith Bool ZArith Sorted Floats.PrimFloat.
 Import ListNotations.
-From ByC Require Import Base.Result Base.ListAux Model.Zerox Proofs.Zerox.
+From ByC Require Import Base.Result Base.ListAux Base.FloatFacts Model.Zerox Proofs.Zerox Proofs.ZeroxFloat.
+Close Scope float_scope. Close Scope R_scope.
 
 (* one midpoint per flank, in temporal order: for p0 < t0 < p1 < t1 < ... decay k belongs to
    the flank peak k -> trough k and rise k to the flank trough k -> peak k+1 *)
@@ -97,3 +98,22 @@ Theorem C03_ordering_peak_first : forall sig peaks troughs rises decays,
   (forall k, S k < length peaks -> (nth k troughs 0 <= nth k rises 0 <= nth (S k) peaks 0)%Z).
 Proof. exact find_zerox_ordering. Qed.
 Print Assumptions C03_ordering_peak_first.
+
+(* binary64: on a genuine flank (finite, strictly ordered extrema, half-height strictly before the
+   far extremum) the midpoint IS the rounded-down median of the half-height crossings — the
+   segment-centre fallback is never taken.  (The two strictness hypotheses cannot be dropped:
+   ZeroxFloat.fallback_equal_extrema, fallback_adjacent_floats_rise.) *)
+Theorem C03_genuine_flank_uses_the_median_crossing : forall (rise : bool) sig s e m,
+  (0 <= s <= e)%Z -> (e < Z.of_nat (length sig))%Z ->
+  let seg := zslice sig s (e + 1) in
+  let x0 := hd 0%float seg in
+  let xl := last seg 0%float in
+  let mid := ((x0 + xl) / 2)%float in
+  finite x0 = true -> finite xl = true -> finite (x0 + xl)%float = true ->
+  (if rise then x0 <? xl else xl <? x0)%float = true ->
+  (if rise then mid <? xl else mid <? x0)%float = true ->
+  flank_mid rise sig s e = Ok m ->
+  m = (s + Z.of_nat (median_floor (level_crossings rise mid 0 seg)))%Z /\
+  level_crossings rise mid 0 seg <> [].
+Proof. exact flank_mid_genuine. Qed.
+Print Assumptions C03_genuine_flank_uses_the_median_crossing.
